@@ -1,4 +1,5 @@
 import BPT.Props.C12
+import BPT.C.Errors
 /-
   C13 — the C extension is memory-safe and balances reference counts.
 
@@ -11,7 +12,10 @@ import BPT.Props.C12
     releases nothing, and only touches objects a slot currently owns;
   * capacity: the constructor stores exactly the capacity it was given or rejects it; the legacy
     (pre-D11) model accepts 65536, stores 0 and its first insert leaves the array (proved by `decide`);
-  * the legacy (pre-D9) model leaks on a leaf split (proved by `decide`).
+  * the legacy (pre-D9) model leaks on a leaf split (proved by `decide`);
+  * error exits: an assignment / lookup / deletion whose key cannot be compared with a stored key raises at its
+    first comparison, before any slot is written or reference taken (`C/Errors.lean`; contract stated in the
+    model, tied by the per-function INCREF/DECREF inventory and the `badset`/`badget`/`baddel` correspondence lines).
   Not expressible in the model, stated partial: CPython's allocator protocol for subclass instances
   (D10: tp_alloc / tp_free — tie lemma + subclass / wrapper lifecycles under the harness), GC traversal,
   use-after-free of the C heap: observed by the AddressSanitizer replay of every generated history and
@@ -111,6 +115,18 @@ theorem leaf_split_leaks :
         (fun r => (r.2.inc, r.2.dec)) = .ok ([.key 5, .val 50, .key 3], [])) := by
   decide
 end Legacy
+
+/-- a call that raises because its key cannot be compared keeps no reference to the key or value it was given and
+    leaves the tree as it was; this applies to every tree that holds at least one entry in a single leaf or has a
+    branch root (every tree a search has something to compare with) -/
+theorem failed_call_keeps_nothing (s s' : CState K V) (e : Evs K V) (h : raisingCall s = some (s', e)) :
+    s' = s ∧ e.inc = [] ∧ e.dec = [] :=
+  ⟨raisingCall_state s s' e h, raisingCall_refs s s' e h⟩
+
+example : ∃ s : CState Int Nat, (∃ r, setitem Cfg.repaired
+      ({ cap := 4, height := 0, root := (emptyLeaf 1 : Leaf Int Nat), size := 0, modc := 0, nextId := 2 } : CState Int Nat) 1 10 = .ok r ∧ r.1 = s) ∧
+    (raisingCall s).isSome = true := by
+  refine ⟨_, ⟨_, rfl, rfl⟩, ?_⟩; decide
 
 /-- non-vacuity: a concrete history through a leaf split and a deletion stays inside the node geometry and ends in a valid
     state, where an iterator positioned at the start takes exactly one reference per object of the first item -/
